@@ -387,5 +387,6 @@ MANIFEST = dict(
          "ValueError and nothing else is raised (genRe_unsup, genSeq_error_kind), open-ended repeats draw their count from "
          "[min, max(cap, min)] (rep_request). Tie: the model's request sequence and string are compared with the real "
          "RegexGenerator under scripted draws, on trees produced by CPython's own parser; search: re.fullmatch on the real "
-         "code.",
+         "code."
+         " Source pins: the normalised text of every anchor file is compared with the text the model was last validated against; a changed file is a broken obligation (no-failing-input-found unless the search finds an input).",
     note="Trusted: Lean kernel + standard axioms, sre_parse -> Re conversion, re.fullmatch semantics, hand model (sampling tie).")
